@@ -38,12 +38,20 @@ def showRes : Res → String
   | .fresh => "fresh" | .load r => showLoad r
   | .foreign n r => s!"{showLoad r} foreign={n.cls.id}:{n.ver}"
 
+/-- what `load(cloudpickle_fallback=False)` into a new object of the graph's class gives -/
+def showLoadNF (cls : Cls) (fs : FS) : String :=
+  match storageLoadF false fs with
+  | .ok c v => if c.id == cls.id then s!"loaded:{v}" else "classMismatch"
+  | .notFound => "notFound"
+  | .corrupt => "corrupt"
+
 def parseRel : String → Option ClassRel
   | "same" => some .same | "samename" => some .sameName | "diffname" => some .diffName
   | "sub" => some .subclass | "super" => some .superclass | _ => none
 
 def parseContent : String → Option Content
-  | "ok" => some .ok | "pf" => some .pickleFails | "bf" => some .bothFail | _ => none
+  | "ok" => some .ok | "pf" => some .pickleFails | "bf" => some .bothFail
+  | "nfpf" => some .nfPickleFails | "nfni" => some .nfNotImportable | _ => none
 
 def storePrefix : Store → String
   | .main => "" | .recovery => "r." | .childA => "a." | .childB => "b."
@@ -88,7 +96,7 @@ def ttrace (tc : TCfg) (w : TWorld) : TOp → List String
   | .ckpt c v =>
     let t1 := (apply1 tc w.tree .main w.node (.save c v)).1
     trace1 tc w.tree .main w.node.cls (.save c v) ++
-      (if c = .bothFail then trace1 tc t1 .recovery w.node.cls (.save c v) else [])
+      (if c.fails then trace1 tc t1 .recovery w.node.cls (.save c v) else [])
   | .ckptCrash c v k => trace1 tc w.tree .main w.node.cls (.crash c v k)
   | .fail c v => trace1 tc w.tree .recovery w.node.cls (.save c v)
   | .failCrash c v k => trace1 tc w.tree .recovery w.node.cls (.crash c v k)
@@ -101,7 +109,12 @@ def showTree (t : Tree) : String :=
 
 def obs (tag : String) (tc : TCfg) (w : TWorld) (op : TOp) : TWorld × String :=
   let (w', rs) := tstep tc w op
-  (w', s!"{tag} {"+".intercalate (rs.map showRes)} | {showTree w'.tree} | has={if hasSaved (w'.tree.view .main) then 1 else 0} | node={w'.node.ver} | steps={",".intercalate (ttrace tc w op)}")
+  -- a foreign load: are the loading node's children / connections still what they were (`compLoad`)
+  let kids := match op with
+    | .on .main (.loadForeign c v) =>
+      s!" kids={if (compLoad false ⟨⟨c, v⟩, true⟩ (w.tree.view .main)).1.attached then 1 else 0}"
+    | _ => ""
+  (w', s!"{tag} {"+".intercalate (rs.map showRes)} | {showTree w'.tree} | has={if hasSaved (w'.tree.view .main) then 1 else 0} hasnf={if hasSavedF false (w'.tree.view .main) then 1 else 0} nf={showLoadNF w'.node.cls (w'.tree.view .main)}{kids} | node={w'.node.ver} | steps={",".intercalate (ttrace tc w op)}")
 
 def both (s : St) (op : TOp) : St × List String :=
   let (wi, li) := obs "I" ⟨Cfg.pinned, false⟩ s.wi op
